@@ -270,7 +270,8 @@ def report_findings(ck, recs, runs, verdicts, fx):
         ok, qs = verdicts[k]
         run = runs[k]
         end = recs[run["end"] - 1]
-        if not ok:
+        stalled = any(r["a"] == "Stall" for r in recs[run["start"]:run["end"]])
+        if not ok and not stalled:
             fam = classify(qs, end)
             key = (KEYS[fam] % run["sc"]) if fam else "C13:terminal-outcome-differs:%s:ends-in-%s" % (run["sc"], end["st"])
             by_key.setdefault(key, (fam, []))[1].append(k)
